@@ -118,6 +118,13 @@ func TestC13Partial(t *testing.T) {
 			pc.Text += rapid.SampledFrom([]string{"}", " {}", "x", "]", "\n \t", ",", " null", "\x00"}).Draw(t, "trailing-text")
 		}
 
+		// ... and something before it: JSON's four white space characters, or
+		// text that is none of them.
+		if rapid.IntRange(0, 7).Draw(t, "leading") == 5 {
+			pc.Text = rapid.SampledFrom([]string{"\n", "\r\n", " \n\t", "\t", "  ", "\r", "\n\n{}", "\ufeff", "\v", "\u00a0", "null ", "[", "//c\n"}).Draw(t, "leading-text") + pc.Text
+			r.Label("leading-text")
+		}
+
 		var (
 			full       jsonapi.Resource
 			part       *jsonapi.SoftResource
